@@ -747,6 +747,8 @@ def _vec_norm2(a):
     flat = list(_np.asarray(a, dtype=object).flat)
     if not flat:
         return 0.0
+    if len(flat) == 1:
+        return abs(flat[0])          # exact, and keeps singleton groups / single-task rows piecewise linear
     if not any(isinstance(v, _SYMT) for v in flat):
         from .sym import deround
         return _exact_sqrt(sum(deround(float(v)) ** 2 for v in flat))
